@@ -52,7 +52,7 @@ class FakeOS (object):
     return getattr(_os, n)
 
 
-def setup (ctx, threaded, funcs, pending, opcode=False, rotate=False, max_points=6000, real_pinger=False):
+def setup (ctx, threaded, funcs, pending, opcode=False, rotate=False, max_points=6000, real_pinger=False, via_core=False):
   from mc.env import boot
   boot()
   from mc import thr
@@ -79,7 +79,20 @@ def setup (ctx, threaded, funcs, pending, opcode=False, rotate=False, max_points
     R.select = thr.CSelect(S)
     U.makePinger = lambda: thr.CPinger(S)
   R.Scheduler.runThreaded = R.Scheduler._orig_runThreaded
-  sch = R.Scheduler(isDefaultScheduler=True, startInThread=True, threaded_selecthub=threaded)
+  if via_core:
+    # the scheduler made the way a running POX makes it: by POXCore's constructor (whose `import threading` is
+    # answered with the controlled module, so whatever thread it starts is under the explorer's control)
+    import sys, io, contextlib, pox.core as PC
+    real = sys.modules["threading"]
+    sys.modules["threading"] = T
+    try:
+      with contextlib.redirect_stdout(io.StringIO()):
+        c = PC.POXCore(threaded_selecthub=threaded, handle_signals=False)
+    finally:
+      sys.modules["threading"] = real
+    sch = c.scheduler
+  else:
+    sch = R.Scheduler(isDefaultScheduler=True, startInThread=True, threaded_selecthub=threaded)
   R.defaultScheduler = sch
   return S, R, sch
 
@@ -97,7 +110,15 @@ def s_calllater (ctx, p):
   nthreads, ncalls = p.get("threads", 2), p.get("calls", 2)
   total = nthreads * ncalls
   S, R, sch = setup(ctx, p["threaded"], p["funcs"], lambda: len(set(ran_tags(ran))) < total, p.get("opcode"), p.get("rotate"), real_pinger=p.get("real_pinger", False))
-  def f (tag): ran.append((tag, S.cur.obj is sch._thread))
+  raiser = p.get("raiser")
+  if raiser:
+    import logging
+    logging.getLogger("recoco").disabled = True      # the library logs the traceback of a failing function
+  def f (tag):
+    ran.append((tag, S.cur.obj is sch._thread))
+    # a handed-over function that fails (ordinary exception, or a BaseException such as SystemExit) must not
+    # strand the functions queued behind it
+    if raiser and tag == (0, 0): raise (SystemExit(3) if raiser == "sysexit" else ValueError("boom"))
   def foreign (i):
     def body ():
       for j in range(ncalls): sch.callLater(f, (i, j))
@@ -156,7 +177,8 @@ def s_wake (ctx, p):
 # ---- S3: synchronized() ----------------------------------------------------------------
 def s_sync (ctx, p):
   st = dict(inside=0, bad=None, fdone=False, steps=0)
-  S, R, sch = setup(ctx, p["threaded"], p["funcs"], lambda: not st["fdone"], p.get("opcode"), p.get("rotate"), real_pinger=p.get("real_pinger", False))
+  S, R, sch = setup(ctx, p["threaded"], p["funcs"], lambda: not st["fdone"], p.get("opcode"), p.get("rotate"), real_pinger=p.get("real_pinger", False),
+                    via_core=p.get("via_core", False))
   class Worker (R.BaseTask):
     def run (self):
       for i in range(3):
@@ -221,7 +243,11 @@ def configs (quick):
         cs.append(dict(base, bound=2, via="schedule"))
       if name == "wake":
         cs.append(dict(base, bound=2, reyield=3))
+      if name == "sync":
+        cs.append(dict(base, bound=2, via_core=True))
       if name == "calllater":
+        cs.append(dict(base, bound=2, raiser="sysexit"))
+        if not quick: cs.append(dict(base, bound=2, raiser="exc", calls=3))
         # the library's real pipe pinger instead of the counting model; 3 calls per thread
         cs.append(dict(base, bound=2 if threaded else 1, real_pinger=True, calls=3))
       # every line of recoco.py as a scheduling point, one deviation
@@ -248,7 +274,8 @@ def cfg_name (c):
                              "all-lines" if c["funcs"] is None else "handoff-funcs",
                              "/opcode" if c.get("opcode") else "", "/rotate" if c.get("rotate") else "",
                              ("/via-schedule" if c.get("via") else "") + ("/reyield" if c.get("reyield") else "")
-                             + ("/real-pinger" if c.get("real_pinger") else ""))
+                             + ("/real-pinger" if c.get("real_pinger") else "") + ("/raiser-" + c["raiser"] if c.get("raiser") else "")
+                             + ("/via-core" if c.get("via_core") else ""))
 
 
 def _worker (item):
